@@ -184,7 +184,7 @@ func (v *Verifier) VerifyFunction(key string) {
 		if label == "" {
 			label = fmt.Sprint(i + 1)
 		}
-		v.addObligation(&Obligation{Name: fc.short + "#post." + label, Kind: "post", Func: key, Assume: final.pc, Goal: t, Expect: "unsat", Src: e.Src})
+		v.addObligation(&Obligation{Name: fc.short + "#post." + label, Kind: "post", Func: key, Assume: final.pc, Goal: t, Expect: "unsat", Src: e.Src, wenv: env})
 	}
 	fc.frameObligations(final)
 	for p := range fc.mutatedParam {
